@@ -301,7 +301,9 @@ def run(ctx, out, tier):
             else:
                 out.viol("C09.count", "C09.count|source", ctx.where(vb, x.get("span")),
                          "the compared count has a definition that is neither `…count()` nor the constant 0")
-    out.inst("C09.count", n_cnt, 3, ["actual := 0 if content.is_empty() else content.lines().filter(|l| !l.trim().is_empty()).count()"])
+    # (the `0 if content.is_empty()` special case is optional: `"".lines()` is empty anyway; when it is
+    # there, it must be guarded - checked above)
+    out.inst("C09.count", n_cnt, 2, ["actual := 0 if content.is_empty() else content.lines().filter(|l| !l.trim().is_empty()).count()"])
 
     # ---------------------------------------------------------------- C09.bound (number = whole trimmed remainder)
     n_b = 0
